@@ -855,7 +855,16 @@ fn cmp_uncoercible_numbers(left: &Value, right: &Value) -> Ordering {
 
 impl Ord for Value {
     fn cmp(&self, other: &Self) -> Ordering {
-        let kind_ordering = self.kind().cmp(&other.kind());
+        // sequences and iterables are compared item by item, like `==` does,
+        // so they have to share a place in the order of kinds.
+        fn kind_rank(kind: ValueKind) -> ValueKind {
+            if kind == ValueKind::Iterable {
+                ValueKind::Seq
+            } else {
+                kind
+            }
+        }
+        let kind_ordering = kind_rank(self.kind()).cmp(&kind_rank(other.kind()));
         if matches!(kind_ordering, Ordering::Less | Ordering::Greater) {
             return kind_ordering;
         }
